@@ -8,9 +8,11 @@ package main
 import (
 	"encoding/binary"
 	"errors"
+	"fmt"
 	"io"
 	"sort"
 	"sync"
+	"sync/atomic"
 	"time"
 
 	sm "github.com/lni/dragonboat/v4/statemachine"
@@ -42,6 +44,11 @@ type recorder struct {
 	disks    map[uint64]*disk         // replica -> what its on-disk state machine has persisted
 	streams  int                      // RecoverFromSnapshot calls of on-disk state machines (streamed snapshots)
 	recovers int                      // RecoverFromSnapshot calls of the in-memory kinds
+	// onRecover is called by a regular state machine in the middle of
+	// RecoverFromSnapshot (old content gone, new content not yet there)
+	onRecover func(replica uint64)
+	// powerLoss: an on-disk state machine is durable only up to its last Sync
+	synced map[uint64]*disk
 }
 
 // disk is the persistent store of one replica's on-disk state machine; it
@@ -53,7 +60,7 @@ type disk struct {
 }
 
 func newRecorder() *recorder {
-	return &recorder{live: map[uint64]*kvSM{}, disks: map[uint64]*disk{}}
+	return &recorder{live: map[uint64]*kvSM{}, disks: map[uint64]*disk{}, synced: map[uint64]*disk{}}
 }
 
 type kvSM struct {
@@ -63,11 +70,15 @@ type kvSM struct {
 	m       map[uint64]cell
 	count   uint64
 	last    uint64
+	// regular: run as sm.IStateMachine, dragonboat serialises Lookup with Update
+	// and RecoverFromSnapshot; recovering is set while RecoverFromSnapshot runs
+	regular    bool
+	recovering int32
 }
 
 func (r *recorder) factory() sm.CreateStateMachineFunc {
 	return func(shardID uint64, replicaID uint64) sm.IStateMachine {
-		s := &kvSM{rec: r, replica: replicaID, m: map[uint64]cell{}}
+		s := &kvSM{rec: r, replica: replicaID, m: map[uint64]cell{}, regular: true}
 		r.mu.Lock()
 		r.live[replicaID] = s
 		r.mu.Unlock()
@@ -77,15 +88,43 @@ func (r *recorder) factory() sm.CreateStateMachineFunc {
 
 const cmdLen = 40
 
-// cmd = id(8) key(8) val(8) client-session-id(8) series-id(8), big endian
+// padLen is the length of the filler that follows the 40 byte header of the
+// command of operation id: 0..255 bytes, varying non-monotonically with the id, so
+// that the payloads of the entries of one batch differ in size in both directions.
+func padLen(id uint64) int { return int((id * 0x9E3779B97F4A7C15) >> 56) }
+
+func padByte(id uint64, k int) byte { return byte(id*31 + uint64(k/7)) }
+
+// cmd = id(8) key(8) val(8) client-session-id(8) series-id(8), big endian,
+// followed by padLen(id) compressible filler bytes derived from the id
 func encodeCmd(id, key, val, cid, series uint64) []byte {
-	b := make([]byte, cmdLen)
+	b := make([]byte, cmdLen+padLen(id))
 	binary.BigEndian.PutUint64(b, id)
 	binary.BigEndian.PutUint64(b[8:], key)
 	binary.BigEndian.PutUint64(b[16:], val)
 	binary.BigEndian.PutUint64(b[24:], cid)
 	binary.BigEndian.PutUint64(b[32:], series)
+	for k := cmdLen; k < len(b); k++ {
+		b[k] = padByte(id, k-cmdLen)
+	}
 	return b
+}
+
+// cmdOK checks the length and the filler of a command.
+func cmdOK(cmd []byte) bool {
+	if len(cmd) < cmdLen {
+		return false
+	}
+	id := binary.BigEndian.Uint64(cmd)
+	if len(cmd) != cmdLen+padLen(id) {
+		return false
+	}
+	for k := cmdLen; k < len(cmd); k++ {
+		if cmd[k] != padByte(id, k-cmdLen) {
+			return false
+		}
+	}
+	return true
 }
 
 // dwell makes applying an entry take a while on a slow replica: the entry is
@@ -100,9 +139,9 @@ func (s *kvSM) dwell(index uint64) {
 
 func (s *kvSM) Update(e sm.Entry) (sm.Result, error) {
 	s.dwell(e.Index)
-	if len(e.Cmd) != cmdLen {
+	if !cmdOK(e.Cmd) {
 		s.rec.mu.Lock()
-		s.rec.bad = append(s.rec.bad, "update with malformed cmd")
+		s.rec.bad = append(s.rec.bad, fmt.Sprintf("replica %d was given a malformed command at index %d (not what any client proposed)", s.replica, e.Index))
 		s.rec.mu.Unlock()
 		return sm.Result{}, nil
 	}
@@ -140,6 +179,11 @@ func (s *kvSM) Lookup(q interface{}) (interface{}, error) {
 	k, ok := q.(uint64)
 	if !ok {
 		return nil, errors.New("bad query")
+	}
+	if s.regular && atomic.LoadInt32(&s.recovering) != 0 {
+		s.rec.mu.Lock()
+		s.rec.bad = append(s.rec.bad, fmt.Sprintf("Lookup on replica %d ran while RecoverFromSnapshot was running on its regular state machine", s.replica))
+		s.rec.mu.Unlock()
 	}
 	s.mu.Lock()
 	defer s.mu.Unlock()
@@ -186,14 +230,47 @@ func (s *kvSM) RecoverFromSnapshot(r io.Reader, _ []sm.SnapshotFile, _ <-chan st
 	if len(data) != 24+24*n {
 		return errors.New("bad snapshot size")
 	}
+	if !s.regular {
+		// Lookup may run concurrently with RecoverFromSnapshot on these kinds: the
+		// state machine itself has to switch to the new content atomically
+		s.mu.Lock()
+		defer s.mu.Unlock()
+		s.count = get(0)
+		s.last = get(1)
+		s.m = map[uint64]cell{}
+		for i := 0; i < n; i++ {
+			s.m[get(3+3*i)] = cell{val: get(4 + 3*i), ver: get(5 + 3*i)}
+		}
+		s.rec.mu.Lock()
+		s.rec.recovers++
+		s.rec.mu.Unlock()
+		return nil
+	}
+	// a regular state machine relies on dragonboat: no Lookup and no Update runs
+	// while it recovers. As real ones do, it drops what it has and then rebuilds
+	// its content from the image, which takes a while.
+	atomic.StoreInt32(&s.recovering, 1)
+	defer atomic.StoreInt32(&s.recovering, 0)
 	s.mu.Lock()
-	defer s.mu.Unlock()
+	s.m = map[uint64]cell{}
+	s.mu.Unlock()
+	s.rec.mu.Lock()
+	cb := s.rec.onRecover
+	s.rec.mu.Unlock()
+	if cb != nil {
+		cb(s.replica)
+	}
+	time.Sleep(12 * time.Millisecond)
+	for i := 0; i < n; i++ {
+		s.mu.Lock()
+		s.m[get(3+3*i)] = cell{val: get(4 + 3*i), ver: get(5 + 3*i)}
+		s.mu.Unlock()
+		time.Sleep(2 * time.Millisecond)
+	}
+	s.mu.Lock()
 	s.count = get(0)
 	s.last = get(1)
-	s.m = map[uint64]cell{}
-	for i := 0; i < n; i++ {
-		s.m[get(3+3*i)] = cell{val: get(4 + 3*i), ver: get(5 + 3*i)}
-	}
+	s.mu.Unlock()
 	s.rec.mu.Lock()
 	s.rec.recovers++
 	s.rec.mu.Unlock()
